@@ -107,14 +107,16 @@ fn run_plain(cx: &mut Ctx, s: &Schema, t: &Table, db: &mut Db, rows_sx: &str, q:
     // subquery passes rebuild the statement; aggregates, DISTINCT flags and arguments must survive) ----
     let k = cx.vac;
     cx.vac += 1;
-    let mut variants: Vec<(Option<&str>, Option<&str>)> = vec![(Some(VAC_WHERE[k % VAC_WHERE.len()]), None), (None, Some(VAC_HAVING[k % VAC_HAVING.len()]))];
+    let mut variants: Vec<(Option<&str>, Option<&str>)> = vec![(Some(vac_where(k, t.rows.len())), None), (None, Some(VAC_HAVING[k % VAC_HAVING.len()]))];
     if k % 3 == 0 {
-        variants.push((Some(VAC_WHERE[(k / 3) % VAC_WHERE.len()]), Some(VAC_HAVING[(k / 3 + 2) % VAC_HAVING.len()])));
+        variants.push((Some(vac_where(k / 3, t.rows.len())), Some(VAC_HAVING[(k / 3 + 2) % VAC_HAVING.len()])));
     }
     for (w, h) in variants {
         let sql2 = q.sql_with(s, w, h);
         columnar(true);
+        let t0 = std::time::Instant::now();
         let out = db.query(&sql2);
+        cx.rep.add(&format!("ms_vacuous|{}|{}|{}", w.unwrap_or("-"), h.unwrap_or("-"), size_class(t.rows.len())), t0.elapsed().as_millis() as u64);
         cx.rep.count(if w.is_some() && h.is_some() { "vacuous_where+having" } else if w.is_some() { "vacuous_where" } else { "vacuous_having" });
         if let Some(w) = w {
             cx.rep.count(&format!("vacuous_pred_{}", &w[..w.len().min(24)]));
@@ -207,12 +209,12 @@ fn run_grouped(cx: &mut Ctx, s: &Schema, t: &Table, db: &mut Db, rows_sx: &str, 
         let mut conj: Vec<String> = preds.iter().map(|p| p.sql(s)).collect();
         let with_where = {
             let mut c = conj.clone();
-            c.push(VAC_WHERE[k % VAC_WHERE.len()].to_string());
+            c.push(vac_where(k, t.rows.len()).to_string());
             format!("{} WHERE {} GROUP BY {}", sel, c.join(" AND "), key_name)
         };
         let base_where = if conj.is_empty() { String::new() } else { format!(" WHERE {}", conj.join(" AND ")) };
         let with_having = format!("{}{} GROUP BY {} HAVING {}", sel, base_where, key_name, VAC_HAVING[k % VAC_HAVING.len()]);
-        conj.push(VAC_WHERE[(k + 2) % VAC_WHERE.len()].to_string());
+        conj.push(vac_where(k + 2, t.rows.len()).to_string());
         let with_both = format!("{} WHERE {} GROUP BY {} HAVING COUNT(*) >= 0 AND {}", sel, conj.join(" AND "), key_name, VAC_HAVING[(k + 1) % VAC_HAVING.len()]);
         let mut list = vec![with_where, with_having];
         if k % 3 == 0 {
